@@ -100,6 +100,30 @@ theorem compaction_preserves_recovery_partial (cfg : CompactCfg) (sz : Nat) (w :
   rw [recState_of_inv c (compact_spec pinnedFlags allOk cfg sz w hinv).1 hp.2 rid,
     recState_of_inv c hinv hcar rid, hp.1]
 
+
+/-! ## tombstone GC -/
+
+/-- **tombstone_gc_safe, partial** (repaired compactor, cutoff in Lamport units, every fault
+    oracle): under the decidable hypothesis `GcSafe` — every tombstone the compaction drops
+    belongs to a key that occurs in no listed segment outside the compaction — the recovered
+    states agree key by key, except that a key whose merged value was a tombstone below the
+    cutoff may be absent afterwards (it reads as deleted before and after).  Missing for the
+    full statement: `GcSafe` is not established by the code (`older_value_in_skipped_segment_
+    counterexample`), and the cutoff the code computes is not in Lamport units
+    (`production_clock_counterexample`). -/
+theorem tombstone_gc_safe_partial (F : Oracle) (cfg : CompactCfg) (sz : Nat) (w : World)
+    (hinv : StoreInv w.store) (hc : Coherent (content w.store)) (hsafe : GcSafe w.store cfg) (k : Nat) :
+    NMap.get (foldState (content (compactWith repairedCompact F cfg sz w).1.store)) k
+        = NMap.get (foldState (content w.store)) k ∨
+    (NMap.get (foldState (content (compactWith repairedCompact F cfg sz w).1.store)) k = none ∧
+      ∃ T, NMap.get (foldState (content w.store)) k = some T ∧ T.isTombstone = true ∧ T.ts.time < cfg.cutoff) := by
+  rcases compact_gc_safe (carrierOf (content w.store) hc) repairedCompact rfl rfl F cfg sz w hinv
+      (inCar_of_coherent hc) hsafe k with h | ⟨h1, T, h2, h3⟩
+  · exact Or.inl h
+  · refine Or.inr ⟨h1, T, h2, ?_⟩
+    unfold dropped at h3
+    simpa using h3
+
 /-! ## concurrent flush -/
 
 theorem compactWith_eq_phases (fl : CompactFlags) (F : Oracle) (cfg : CompactCfg) (sz : Nat) (w : World) :
@@ -257,6 +281,22 @@ theorem C13_interleaving_false (restore : Bool) : ¬ C13_compaction_flush_interl
   cases restore <;> decide
 
 /-! ## non-vacuity -/
+
+/-- non-vacuity: a layout where a tombstone IS dropped and `GcSafe` holds (the deleted key's
+    older value is inside the compaction), while `gcOps` violates `GcSafe` -/
+def gcSafeOps : List Op :=
+  [.push (116, lww 120 3 1), .flush 100, .push (116, tomb 5 1), .flush 100, .push (117, lww 1 6 1), .flush 5000]
+
+example : GcSafe (after gcSafeOps).store { cfgAll with cutoff := 100 } ∧
+    Coherent (content (after gcSafeOps).store) ∧
+    (compactWith repairedCompact allOk { cfgAll with cutoff := 100 } 100 (after gcSafeOps)).2 = .emptied [0, 1] 1 ∧
+    recState (after gcSafeOps).store 1 = some [(116, tomb 5 1), (117, lww 1 6 1)] ∧
+    recState (compactWith repairedCompact allOk { cfgAll with cutoff := 100 } 100 (after gcSafeOps)).1.store 1
+      = some [(117, lww 1 6 1)] ∧
+    ¬ GcSafe (after gcOps).store { cfgAll with cutoff := 100 } := by
+  decide
+
+
 
 /-- three replicas, overlapping stamp ranges, a tombstone (kept: cutoff 0), one segment over the
     size target (skipped), `maxPer` cutting the selection: the hypotheses of the partial theorem
